@@ -100,6 +100,21 @@ CHECKS = {
             "kappa*age/max_depth^2 < 1e-3), the mass-conserving slab envelope. Tie: bit-exact correspondence of the cooling models; "
             "oracle: depth and age ladders on the implementation.",
             "proof of envelopes over Reals (erfc laws as premises) + bit-exact correspondence + ladder oracle", "4 C20"),
+    "C06": ("Theorems (Properties_C06.v, over exact reals; atan2 polar law as premise): the executable specification "
+            "SlabSpec.planar_distance is the elementary construction - for a straight piece the point at arclength a offset d "
+            "along the downward normal gets (d, a), is admissible iff 0 <= a <= L and no point of the line is closer than |d|; an "
+            "arc starts at the start point, its tangent at parameter th dips by th with speed R = L/|t2-t1| (dip linear in "
+            "arclength), a point offset d from the arc point of dip phi gets (d, R|phi-t1|) and no point of the circle is closer; "
+            "the chain reports an admissible piece with the previous lengths added. Tie: the extracted specification vs "
+            "World::distance_to_plane (tolerance 1 m + 1e-6 L; the implementation's 3-D frame and Newton foot are not modelled "
+            "yet, so the tie is a tolerance comparison, not bit-exact) and the four-clause membership vs the tag.",
+            "proof over Reals that the executable planar specification is normal distance/arclength + extracted-spec-vs-implementation comparison + membership oracle", "4 C06"),
+    "C07": ("Theorems (Properties_C07.v, over exact reals): inside a triangle the interpolated depth lies between the extreme nodal "
+            "values, so the global min/max pre-test never rejects what the local test accepts; the pruned kd search returns a true "
+            "nearest centroid. Not a theorem yet: sufficiency of the slab/fault bounding box and depth cut-off (decided by the "
+            "hook oracle). Tie/search: every world built twice in one process, culling as computed vs switched off by the "
+            "GWB_VERIF hook, bit-identical answers required around and below the feature.",
+            "proof over Reals for the surface pre-test and kd search + culling on/off oracle through the GWB_VERIF hook", "4 C07"),
 }
 
 NOT_YET = {
